@@ -1506,6 +1506,8 @@ fn verif_c09_wire() {
     run_suite("c09_wire", gen_wire, exec);
 }
 
+// The query-string suite (c09_query) lives in hooks/server.rs: `net::http_serde` is private to `net`.
+
 #[test]
 fn verif_c09_transpose() {
     run_suite("c09_transpose", gen_transpose, exec);
